@@ -25,7 +25,9 @@ RULE = ("parts (shard plan in bounds()): gen = general_stat and sample_count_sta
         "(site mode: x every site/mutation placement of the stated scheme), + window additivity for "
         "every refinement pair of window lists; named = diversity, segregating_sites, Y1, Tajimas_D, "
         "divergence, Y2, f2, Y3, f3, f4, Fst, genetic_relatedness (polarised x centre x proportion), "
-        "genetic_relatedness_weighted, genetic_relatedness_vector, allele_frequency_spectrum (site / "
+        "genetic_relatedness_weighted, genetic_relatedness_vector, trait_covariance, trait_correlation, "
+        "trait_linear_model (Z none / one covariate / covariates spanning the intercept), "
+        "allele_frequency_spectrum (site / "
         "branch, polarised / folded, joint) x sample-set lists x all index tuples x mode x windows x "
         "span_normalise + dimension-dropping forms; sched = divergence_matrix and "
         "genealogical_nearest_neighbours with num_threads=1..k under every completion order of the "
@@ -60,7 +62,11 @@ ASSUMPTIONS = [
     "C call are not controlled (tasks share only the read-only tree sequence); no TSan pass",
     "genetic_relatedness_vector supports only mode='branch' (site/node raise UNSUPPORTED_STAT_MODE "
     "although the docstring default is 'site'): only branch mode is evaluated",
-    "trait_covariance / trait_correlation / trait_linear_model are not covered",
+    "trait_*: evaluated from the docstring definitions on the 0/1 inheritance indicator of every allele / "
+    "branch / node (squared sample covariance, squared Pearson correlation, squared least-squares "
+    "coefficient, each halved per atom and summed over an atom and its complement); an indicator that is "
+    "constant (correlation) or in the span of intercept + covariates (linear model) contributes 0 as "
+    "documented; one fixed 2-column trait matrix per sample count (2..6 samples)",
 ]
 TOL = 1e-9
 SHARD_TIMEOUT = 3000
@@ -613,6 +619,58 @@ def check_weighted(ts, rts, modes, acc, case, full=True):
                                 key += ":span_normalise_ignored"
                         acc.fail(key, f"genetic_relatedness_vector(W, windows={w}, mode={mode}, "
                                       f"span_normalise={sn}, centre={centre}): {msg}", case)
+
+
+TRAIT_W = [[1.0, 0.0], [-2.0, 1.0], [4.0, 1.0], [0.5, -3.0], [3.0, 2.0], [-1.0, 0.25]]
+TRAIT_Z = [[0.0], [1.0], [3.0], [-1.0], [2.0], [0.5]]
+
+
+def check_trait(ts, rts, modes, acc, case, full=True):
+    """trait_covariance / trait_correlation / trait_linear_model against their docstring
+    definitions evaluated on the inheritance indicator of every allele / branch / node."""
+    np = np_()
+    samples = rts.samples
+    ns = len(samples)
+    if ns < 2 or ns > len(TRAIT_W):
+        acc.count("trait_skipped_sample_count")
+        return
+    Wf = TRAIT_W[:ns]
+    Wnp = np.array(Wf)
+    cols = [[Fr(r[c]) for r in Wf] for c in range(2)]
+    Zf = TRAIT_Z[:ns]
+    zcols = [[Fr(r[0]) for r in Zf]]
+    singles = [[s] for s in samples]
+    counts = RS.Counts(rts, RS.indicator_weights(samples, singles))
+    wspecs = named_wspecs(rts, case, full)
+    jobs = [("trait_covariance", RS.sf_trait_covariance(cols), {}),
+            ("trait_correlation", RS.sf_trait_correlation(cols), {}),
+            ("trait_linear_model", RS.sf_trait_linear_model(cols, []), {}),
+            ("trait_linear_model", RS.sf_trait_linear_model(cols, []), {"Z": None})]
+    if ns >= 3:
+        jobs.append(("trait_linear_model", RS.sf_trait_linear_model(cols, zcols), {"Z": np.array(Zf)}))
+        # a covariate matrix that already spans the intercept
+        z2 = [[Fr(1) - z for z in zcols[0]], list(zcols[0])]
+        jobs.append(("trait_linear_model", RS.sf_trait_linear_model(cols, z2),
+                     {"Z": np.array([[1.0 - r[0], r[0]] for r in Zf])}))
+    for name, f, kw in jobs:
+        ev = RS.Evaluator(counts, f, 2)
+        for mode in modes:
+            for w, snl in wspecs:
+                for sn in snl:
+                    try:
+                        got = getattr(ts, name)(Wnp, windows=w, mode=mode, span_normalise=sn, **kw)
+                    except Exception as e:  # noqa
+                        acc.fail(f"named:{name}:{mode}:exception", f"raised {e!r}", case)
+                        continue
+                    e = ev.stat(RS.parse_windows(rts, w), mode, False, sn)
+                    if w is None:
+                        e = e[0]
+                    msg, nt = mismatch(got, e)
+                    acc.ev(1, nt)
+                    if msg:
+                        acc.fail(f"named:{name}:{mode}",
+                                 f"{name}(W={Wf}, {'Z=' + repr(kw['Z'].tolist()) + ', ' if kw.get('Z') is not None else ''}"
+                                 f"windows={w}, mode={mode}, span_normalise={sn}): {msg}", case)
 
 
 def edge_after_gap(rts):
@@ -1455,6 +1513,7 @@ def check_case(part, m, placement, opt, acc):
         for SS in sample_set_lists(rts.samples, full):
             check_named(ts, rts, SS, modes, acc, case, full)
         check_weighted(ts, rts, modes, acc, case, full)
+        check_trait(ts, rts, modes, acc, case, full)
     elif part in ("sched", "sched5"):
         check_sched(ts, rts, acc, case, maxk=opt.get("maxk", 5))
     elif part == "ded":
